@@ -32,7 +32,12 @@ def record(ctx, mode, inputs, builds, name):
         for idx, kind, detail in f:
             fails.append((b, base + idx, kind, detail))
         if os.path.exists(ev):
-            events.setdefault(b, []).extend(json.loads(l) for l in open(ev) if l.strip())
+            for l in open(ev):
+                if l.strip():
+                    try:
+                        events.setdefault(b, []).append(json.loads(l))
+                    except ValueError:
+                        pass                # torn last line of a crashed recorder
     return fails, events
 
 
